@@ -1,0 +1,54 @@
+//go:build verif
+
+package clock
+
+import "time"
+
+// Contracts for clock.go (property C03: deadline arithmetic).
+
+// ghost: the latest time (ns since Start) known to have been reached; only grows (A-TIME)
+func gh_now() int64 { panic("ghost") }
+
+func sp_clamp(x mathint) mathint {
+	if x > 9223372036854775807 {
+		return 9223372036854775807
+	}
+	if x < -9223372036854775808 {
+		return -9223372036854775808
+	}
+	return x
+}
+
+// saturating addition: the mathematical sum clamped to the int64 range, for all 2^128 inputs
+func spec_saturatingAdd(a, b int64) (r int64) {
+	ensures("clamped_sum", mathint(r) == sp_clamp(mathint(a)+mathint(b)))
+	return
+}
+
+// time.Since(Start) is monotone non-decreasing (A-TIME); trusted, body not analysed
+func (c *Clock) spec_NowNano() (r int64) {
+	flag("trusted")
+	modifies(gh_now())
+	ensures("monotone", r >= old(gh_now()) && gh_now() == r)
+	return
+}
+
+// every value ever stored in the cached clock was a reading of the real clock
+func atominv_clock_Clock_now(c *Clock, v int64) bool { return v <= gh_now() }
+
+func (c *Clock) spec_RefreshNowCache() {
+	ensures("monotone", gh_now() >= old(gh_now()))
+}
+
+func (c *Clock) spec_NowNanoCached() (r int64) {
+	ensures("past", r <= gh_now() && gh_now() == old(gh_now()))
+	return
+}
+
+// deadline = min(now + ttl, MaxInt64) for the clock reading `now` taken by this call
+func (c *Clock) spec_ExpireNano(ttl time.Duration) (r int64) {
+	ensures("deadline", mathint(r) == sp_clamp(mathint(gh_now())+mathint(ttl)))
+	ensures("not_before_now", imp(ttl > 0, r >= gh_now()))
+	ensures("clock_read", gh_now() >= old(gh_now()))
+	return
+}
